@@ -203,7 +203,7 @@ _ROT_COMMON = dict(
 )
 _ROT_DOMAIN = (
     "case = configuration (size limit L in {0,1,2,7,9,10,11,17,30,64,200}, file-count limit N in {-1,0,1,2,3,4,12}, options subset of "
-    "{startup, daily, compression}, file name from {app.log, applog, a+b.log, app.v1.log, 'app (1).log', x.y.txt}, file-timestamp granularity "
+    "{startup, daily, compression}, file name from {app.log, applog, a+b.log, app.v1.log, 'app (1).log', x.y.txt, .app.log (hidden)}, file-timestamp granularity "
     "exact/1ms/1s/2s, start time incl. just before midnight) + history of 1..60 (120 thorough) operations: write (record of 0..40 bytes, sizes "
     "steered to L-3..L+2 and over-limit, multi-byte UTF-8, embedded newline; every write is flushed so that it can be observed), advance the virtual clock (ms..s, to "
     "around midnight, 1..40 days), restart the sink, flush, plant one of 12 look-alike foreign files; the directory is read back after every "
